@@ -203,6 +203,38 @@ def run(c):
     mism = c.validate("Trace_X01", events, stateful=True, shards=12 if thorough else 10, extra_files=extra, timeout=2400, cfg=tcfg)
 
     phase('validation')
+    # ---- the binding must discriminate: corrupt single logged fields of recorded behaviours and require TLC to object
+    rec = [json.loads(x) for x in read_ndjson(out2)]
+    cut = [i for i, e in enumerate(rec) if e["op"] == "TraceReset"]
+    nia_of, cur = {}, None
+    for i, e in enumerate(rec):
+        if e["op"] == "TraceReset": cur = e["nia"]
+        nia_of[i] = cur
+    def pick(pred):
+        for i, e in enumerate(rec):
+            if nia_of[i] != 0 and pred(e): return i
+        raise Infra("self-test: no suitable recorded event")
+    targets = {}
+    i = pick(lambda e: e["op"] == "Deliver" and e["ok"]); targets[i] = ("ok", "rejected")
+    j = pick(lambda e: e["op"] == "Send" and len(e["wire"]) > 8); targets[j] = ("mac", "header")
+    k = pick(lambda e: e["op"] == "Deliver" and e["ok"] and e["rget"] % 256 == 0); targets[k] = ("rget", "receiver-count")
+    sel = []
+    for idx, (field, want) in sorted(targets.items()):
+        lo = max(x for x in cut if x <= idx); hi = min([x for x in cut if x > idx] + [len(rec)])
+        evs = [dict(e) for e in rec[lo:hi]]
+        e = evs[idx - lo] = dict(evs[idx - lo])
+        if field == "ok": e["ok"] = False
+        elif field == "mac": e["wire"] = list(e["wire"]); e["wire"][1] ^= 1
+        else: e["rget"] -= 256
+        sel.append((len(sum([x[0] for x in sel], [])) + idx - lo, want, [json.dumps(x) for x in evs]))
+    flat = sum([x[2] for x in sel], [])
+    got = c.validate("Trace_X01", flat, stateful=True, shards=1, extra_files=extra)
+    c.cov["traces_validated_against_impl"] -= len(flat)
+    for pos, want, _ in sel:
+        if not any(g[0] == pos and g[1][3] == want for g in got):
+            raise Infra("self-test: a corrupted %s field at event %d was not rejected by the trace specification (got %s)" % (want, pos, [(g[0], g[1][3]) for g in got][:6]))
+    c.cov["selftest_corrupted_fields_rejected"] = len(sel)
+    phase('self-test')
 
     def history_of(idx):
         lo = idx
